@@ -321,3 +321,69 @@ func OkChanArgPassed(names []string) {
 	}
 	wg.Wait()
 }
+
+// BadAliasTruncate hands the pending slice out of the lock by reference and truncates in place.
+func BadAliasTruncate(in chan int, out chan int) {
+	var m sync.Mutex
+	queue := make([]int, 0, 16)
+	closed := false
+	go func() {
+		for v := range in {
+			m.Lock()
+			queue = append(queue, v)
+			m.Unlock()
+		}
+		m.Lock()
+		closed = true
+		m.Unlock()
+	}()
+	go func() {
+		defer close(out)
+		for running := true; running; {
+			m.Lock()
+			pending := queue
+			queue = queue[:0]
+			if len(pending) == 0 && closed {
+				running = false
+			}
+			m.Unlock()
+			for _, v := range pending {
+				out <- v
+			}
+		}
+	}()
+}
+
+// OkAdvance takes one element and advances the slice start.
+func OkAdvance(in chan int, out chan int) {
+	var m sync.Mutex
+	queue := make([]int, 0, 16)
+	closed := false
+	go func() {
+		for v := range in {
+			m.Lock()
+			queue = append(queue, v)
+			m.Unlock()
+		}
+		m.Lock()
+		closed = true
+		m.Unlock()
+	}()
+	go func() {
+		defer close(out)
+		for running := true; running; {
+			v, have := 0, false
+			m.Lock()
+			if len(queue) > 0 {
+				v, have = queue[0], true
+				queue = queue[1:]
+			} else if closed {
+				running = false
+			}
+			m.Unlock()
+			if have {
+				out <- v
+			}
+		}
+	}()
+}
